@@ -76,12 +76,13 @@ func (gp globPattern) Index(k any) (any, error) {
 	case modifier == "nomatch-ok":
 		gp.Flags |= noMatchOK
 	case strings.HasPrefix(modifier, "but:"):
-		gp.Buts = append(gp.Buts, modifier[len("but:"):])
+		gp.Buts = append(gp.Buts[:len(gp.Buts):len(gp.Buts)], modifier[len("but:"):])
 	case modifier == "match-hidden":
 		lastSeg, err := gp.lastWildSeg()
 		if err != nil {
 			return nil, err
 		}
+		gp.cloneSegments()
 		gp.Segments[len(gp.Segments)-1] = glob.Wild{
 			Type: lastSeg.Type, MatchHidden: true, Matchers: lastSeg.Matchers,
 		}
@@ -143,9 +144,10 @@ func (gp globPattern) Concat(v any) (any, error) {
 			Buts: gp.Buts, TypeCb: gp.TypeCb}, nil
 	case globPattern:
 		// We know rhs contains exactly one segment.
+		gp.cloneSegments()
 		gp.append(rhs.Segments[0])
 		gp.Flags |= rhs.Flags
-		gp.Buts = append(gp.Buts, rhs.Buts...)
+		gp.Buts = append(gp.Buts[:len(gp.Buts):len(gp.Buts)], rhs.Buts...)
 		// This handles illegal cases such as `**[type:regular]x*[type:directory]`.
 		if gp.TypeCb != nil && rhs.TypeCb != nil {
 			return nil, ErrMultipleTypeModifiers
@@ -187,11 +189,20 @@ func (gp *globPattern) addMatcher(matcher func(rune) bool) error {
 	if err != nil {
 		return err
 	}
+	gp.cloneSegments()
 	gp.Segments[len(gp.Segments)-1] = glob.Wild{
 		Type: lastSeg.Type, MatchHidden: lastSeg.MatchHidden,
-		Matchers: append(lastSeg.Matchers, matcher),
+		Matchers: append(lastSeg.Matchers[:len(lastSeg.Matchers):len(lastSeg.Matchers)], matcher),
 	}
 	return nil
+}
+
+// cloneSegments gives gp its own copy of the segments. A globPattern is passed
+// around by value, but its copies - including the value the compiler creates
+// once for a wildcard in the source code - share the array behind Segments, so
+// gp must not write into it.
+func (gp *globPattern) cloneSegments() {
+	gp.Segments = append([]glob.Segment(nil), gp.Segments...)
 }
 
 func (gp *globPattern) append(segs ...glob.Segment) {
